@@ -95,6 +95,10 @@ func Unmarshal(data []byte) (any, error) {
 
 type internalStruct struct {
 	PointerNum uint32 `json:",omitempty"`
+	// NilPointerLevel is set for a pointer chain that contains a nil pointer:
+	// the 1-based level of that nil pointer (1: the outermost pointer is nil).
+	// PointerNum always is the full pointer depth of the type.
+	NilPointerLevel uint32 `json:",omitempty"`
 
 	// based type
 	Type      string          `json:",omitempty"`
@@ -132,7 +136,11 @@ func internalMarshal(v any) (*internalStruct, error) {
 	for rt.Kind() == reflect.Ptr {
 		ret.PointerNum++
 		if rv.IsNil() {
+			// record where the chain ends and keep counting the levels of the type
+			ret.NilPointerLevel = ret.PointerNum
+			rt = rt.Elem()
 			for rt.Kind() == reflect.Ptr {
+				ret.PointerNum++
 				rt = rt.Elem()
 			}
 			key, ok := rm[rt]
@@ -273,6 +281,19 @@ func internalUnmarshal(v *internalStruct) (any, error) {
 		t, ok := m[v.Type]
 		if !ok {
 			return nil, fmt.Errorf("unknown type key: %v", v.Type)
+		}
+		if v.NilPointerLevel > 0 {
+			if v.NilPointerLevel > v.PointerNum {
+				return nil, fmt.Errorf("unmarshal type[%s] fail: nil pointer level %d exceeds pointer depth %d", v.Type, v.NilPointerLevel, v.PointerNum)
+			}
+			// re-create the non-nil levels above the nil pointer
+			result := reflect.New(resolvePointerNum(v.PointerNum, t)).Elem()
+			cur := result
+			for i := uint32(1); i < v.NilPointerLevel; i++ {
+				cur.Set(reflect.New(cur.Type().Elem()))
+				cur = cur.Elem()
+			}
+			return result.Interface(), nil
 		}
 		pResult := reflect.New(resolvePointerNum(v.PointerNum, t))
 		err := sonic.Unmarshal(v.JSONValue, pResult.Interface())
